@@ -85,7 +85,7 @@ theorem strand_order_nodup (c : StrandData) (d : RDim) (h : StrandWF c d) : (str
 
 theorem strand_order_subset (c : StrandData) (d : RDim) (h : StrandWF c d) :
     ∀ x ∈ strandOrder c d, x ∈ strandOrder c d.strip := by
-  have := helper_run_subset d.cdim (strandEmpties c) (strandROrder (strandBlocks c d) d) false h.1
+  have := helper_run_subset d.cdim (strandEmpties c) (strandROrder (strandBlocks c d) (strandAvail c) d) false h.1
     (strandROrder_wf c d h) d.strip.cdim (strandEmpties c) rfl rfl rfl rfl
   exact fun x hx => this x hx
 
@@ -627,10 +627,10 @@ theorem strand_pruned_iff (c : StrandData) (d : RDim) (h : StrandWF c d) :
 /-- a row element is absent iff hidden, or pruning is on and NO respondent (counted without
     weights) is eligible for the row (`C09.rowsPruneSpec`) -/
 theorem slice_row_pruned_iff_respondents (R C : Var) (hR : R.CM) (hC : C.CM) (s : Survey) (wraw : FT)
-    (wdn udn : Bool) (rows cols : RDim)
-    (h : SliceWF ⟨[R, C], wraw, cubeOf [R, C] (unweight s), 0, wdn, udn⟩ rows cols)
+    (num : CubeData) (rows cols : RDim)
+    (h : SliceWF { num with vars := [R, C], wraw := wraw, uraw := cubeOf [R, C] (unweight s), k := 0 } rows cols)
     (i : Nat) (hi : i < R.ext) (hC0 : 0 < C.ext) :
-    (i : Int) ∉ sliceRowOrder ⟨[R, C], wraw, cubeOf [R, C] (unweight s), 0, wdn, udn⟩ rows cols ↔
+    (i : Int) ∉ sliceRowOrder { num with vars := [R, C], wraw := wraw, uraw := cubeOf [R, C] (unweight s), k := 0 } rows cols ↔
       i ∈ rows.cdim.hidden ∨ (rows.cdim.prune = true ∧ C09.rowsPruneSpec R C (unweight s) i = 0) := by
   have hn : rows.cdim.elems.length = R.ext := by
     rw [← h.2.2.2.2.1]; exact slice2d_nrows R C hR hC _
@@ -640,10 +640,10 @@ theorem slice_row_pruned_iff_respondents (R C : Var) (hR : R.CM) (hC : C.CM) (s 
   rw [this]
 
 theorem slice_col_pruned_iff_respondents (R C : Var) (hR : R.CM) (hC : C.CM) (s : Survey) (wraw : FT)
-    (wdn udn : Bool) (rows cols : RDim)
-    (h : SliceWF ⟨[R, C], wraw, cubeOf [R, C] (unweight s), 0, wdn, udn⟩ rows cols)
+    (num : CubeData) (rows cols : RDim)
+    (h : SliceWF { num with vars := [R, C], wraw := wraw, uraw := cubeOf [R, C] (unweight s), k := 0 } rows cols)
     (j : Nat) (hj : j < C.ext) (hR0 : 0 < R.ext) :
-    (j : Int) ∉ sliceColOrder ⟨[R, C], wraw, cubeOf [R, C] (unweight s), 0, wdn, udn⟩ rows cols ↔
+    (j : Int) ∉ sliceColOrder { num with vars := [R, C], wraw := wraw, uraw := cubeOf [R, C] (unweight s), k := 0 } rows cols ↔
       j ∈ cols.cdim.hidden ∨ (cols.cdim.prune = true ∧ C09.colsPruneSpec R C (unweight s) j = 0) := by
   have hn : cols.cdim.elems.length = C.ext := by
     rw [← h.2.2.2.2.2.1]; exact slice2d_ncols R C hR hC _
@@ -652,9 +652,9 @@ theorem slice_col_pruned_iff_respondents (R C : Var) (hR : R.CM) (hC : C.CM) (s 
   simp only [CubeData.u]
   rw [this]
 
-theorem strand_pruned_iff_respondents (V : Var) (hV : V.CM) (s : Survey) (wraw : FT) (d : RDim)
-    (h : StrandWF ⟨[V], wraw, cubeOf [V] (unweight s)⟩ d) (i : Nat) (hi : i < V.ext) :
-    (i : Int) ∉ strandOrder ⟨[V], wraw, cubeOf [V] (unweight s)⟩ d ↔
+theorem strand_pruned_iff_respondents (V : Var) (hV : V.CM) (s : Survey) (wraw : FT) (num : StrandData) (d : RDim)
+    (h : StrandWF { num with vars := [V], wraw := wraw, uraw := cubeOf [V] (unweight s) } d) (i : Nat) (hi : i < V.ext) :
+    (i : Int) ∉ strandOrder { num with vars := [V], wraw := wraw, uraw := cubeOf [V] (unweight s) } d ↔
       i ∈ d.cdim.hidden ∨
         (d.cdim.prune = true ∧ specCount [V] (unweight s) [i] [decide (V.kind = .arr)] = 0) := by
   have hn : d.cdim.elems.length = V.ext := by
@@ -670,14 +670,14 @@ theorem strand_pruned_iff_respondents (V : Var) (hV : V.CM) (s : Survey) (wraw :
     survey: position (p, q) of the eight count / base outputs shows the number of respondents
     of the (row element, column element) the REPORTED orders name at p and q -/
 theorem slice_base_cells_respondents (R C : Var) (hR : R.CM) (hC : C.CM) (s : Survey)
-    (wdn udn : Bool) (rows cols : RDim)
-    (h : SliceWF ⟨[R, C], cubeOf [R, C] s, cubeOf [R, C] (unweight s), 0, wdn, udn⟩ rows cols)
+    (num : CubeData) (rows cols : RDim)
+    (h : SliceWF { num with vars := [R, C], wraw := cubeOf [R, C] s, uraw := cubeOf [R, C] (unweight s), k := 0 } rows cols)
     (p q i j : Nat)
-    (hp : (sliceRowOrder ⟨[R, C], cubeOf [R, C] s, cubeOf [R, C] (unweight s), 0, wdn, udn⟩ rows cols)[p]?
+    (hp : (sliceRowOrder { num with vars := [R, C], wraw := cubeOf [R, C] s, uraw := cubeOf [R, C] (unweight s), k := 0 } rows cols)[p]?
             = some (i : Int))
-    (hq : (sliceColOrder ⟨[R, C], cubeOf [R, C] s, cubeOf [R, C] (unweight s), 0, wdn, udn⟩ rows cols)[q]?
+    (hq : (sliceColOrder { num with vars := [R, C], wraw := cubeOf [R, C] s, uraw := cubeOf [R, C] (unweight s), k := 0 } rows cols)[q]?
             = some (j : Int)) :
-    let t := runSlice ⟨[R, C], cubeOf [R, C] s, cubeOf [R, C] (unweight s), 0, wdn, udn⟩ rows cols
+    let t := runSlice { num with vars := [R, C], wraw := cubeOf [R, C] s, uraw := cubeOf [R, C] (unweight s), k := 0 } rows cols
     let at_ := fun key => ((t.mat key).getD p []).getD q .nan
     at_ .countsW = .fin (specCount [R, C] s [i, j] [false, false]) ∧
     at_ .rowBasesW = .fin (specCount [R, C] s [i, j] [false, true]) ∧
@@ -722,14 +722,14 @@ theorem slice_base_cells_respondents (R C : Var) (hR : R.CM) (hC : C.CM) (s : Su
 
 /-- 3-D: partition k of a cube over (table, rows, columns) variables -/
 theorem slice_base_cells_respondents_3d (T R C : Var) (hT : T.CM) (hR : R.CM) (hC : C.CM) (s : Survey)
-    (k : Nat) (hk : k < T.ext) (wdn udn : Bool) (rows cols : RDim)
-    (h : SliceWF ⟨[T, R, C], cubeOf [T, R, C] s, cubeOf [T, R, C] (unweight s), k, wdn, udn⟩ rows cols)
+    (k : Nat) (hk : k < T.ext) (num : CubeData) (rows cols : RDim)
+    (h : SliceWF { num with vars := [T, R, C], wraw := cubeOf [T, R, C] s, uraw := cubeOf [T, R, C] (unweight s), k := k } rows cols)
     (p q i j : Nat) (hi : i < R.ext) (hj : j < C.ext)
-    (hp : (sliceRowOrder ⟨[T, R, C], cubeOf [T, R, C] s, cubeOf [T, R, C] (unweight s), k, wdn, udn⟩
+    (hp : (sliceRowOrder { num with vars := [T, R, C], wraw := cubeOf [T, R, C] s, uraw := cubeOf [T, R, C] (unweight s), k := k }
             rows cols)[p]? = some (i : Int))
-    (hq : (sliceColOrder ⟨[T, R, C], cubeOf [T, R, C] s, cubeOf [T, R, C] (unweight s), k, wdn, udn⟩
+    (hq : (sliceColOrder { num with vars := [T, R, C], wraw := cubeOf [T, R, C] s, uraw := cubeOf [T, R, C] (unweight s), k := k }
             rows cols)[q]? = some (j : Int)) :
-    let t := runSlice ⟨[T, R, C], cubeOf [T, R, C] s, cubeOf [T, R, C] (unweight s), k, wdn, udn⟩ rows cols
+    let t := runSlice { num with vars := [T, R, C], wraw := cubeOf [T, R, C] s, uraw := cubeOf [T, R, C] (unweight s), k := k } rows cols
     let at_ := fun key => ((t.mat key).getD p []).getD q .nan
     at_ .countsW = .fin (specCount [T, R, C] s [k, i, j] [false, false, false]) ∧
     at_ .rowBasesW = .fin (specCount [T, R, C] s [k, i, j] [false, false, true]) ∧
@@ -759,10 +759,10 @@ theorem slice_base_cells_respondents_3d (T R C : Var) (hT : T.CM) (hR : R.CM) (h
       (C02.tableBase_spec_3d T R C hT hR hC (unweight s) k i j hk hi hj)
 
 /-- 1-D -/
-theorem strand_base_cells_respondents (V : Var) (hV : V.CM) (s : Survey) (d : RDim)
-    (h : StrandWF ⟨[V], cubeOf [V] s, cubeOf [V] (unweight s)⟩ d) (p i : Nat)
-    (hp : (strandOrder ⟨[V], cubeOf [V] s, cubeOf [V] (unweight s)⟩ d)[p]? = some (i : Int)) :
-    let t := runStrand ⟨[V], cubeOf [V] s, cubeOf [V] (unweight s)⟩ d
+theorem strand_base_cells_respondents (V : Var) (hV : V.CM) (s : Survey) (num : StrandData) (d : RDim)
+    (h : StrandWF { num with vars := [V], wraw := cubeOf [V] s, uraw := cubeOf [V] (unweight s) } d) (p i : Nat)
+    (hp : (strandOrder { num with vars := [V], wraw := cubeOf [V] s, uraw := cubeOf [V] (unweight s) } d)[p]? = some (i : Int)) :
+    let t := runStrand { num with vars := [V], wraw := cubeOf [V] s, uraw := cubeOf [V] (unweight s) } d
     (t.vec .countsW).getD p .nan = .fin (specCount [V] s [i] [false]) ∧
     (t.vec .basesW).getD p .nan = .fin (specCount [V] s [i] [true]) ∧
     (t.vec .countsU).getD p .nan = .fin (specCount [V] (unweight s) [i] [false]) ∧
@@ -773,7 +773,7 @@ theorem strand_base_cells_respondents (V : Var) (hV : V.CM) (s : Survey) (d : RD
     rw [← h.2.1]; exact strand_n V hV _
   have hi : i < V.ext := by rw [← hn]; exact hi'
   have hcell : ∀ key, (t.vec key).getD p .nan
-      = (strandBlocks ⟨[V], cubeOf [V] s, cubeOf [V] (unweight s)⟩ d key).base i := by
+      = (strandBlocks { num with vars := [V], wraw := cubeOf [V] s, uraw := cubeOf [V] (unweight s) } d key).base i := by
     intro key
     show (assembleVector _ _ _ _ _).getD p .nan = _
     rw [assembleVector_cell _ _ _ _ _ p _ hp, vecCell_base]
@@ -792,7 +792,7 @@ def R : Var := ⟨.cat, 3, [false, true, false], false⟩      -- missing catego
 def Cv : Var := ⟨.cat, 2, [false, false], false⟩
 def sv : Survey := [⟨2, [[0], [1]]⟩, ⟨1/2, [[0], [0]]⟩, ⟨3, [[1], [0]]⟩, ⟨0, [[2], [1]]⟩]
 
-def cube : CubeData := ⟨[R, Cv], cubeOf [R, Cv] sv, cubeOf [R, Cv] (unweight sv), 0, false, false⟩
+def cube : CubeData := { vars := [R, Cv], wraw := cubeOf [R, Cv] sv, uraw := cubeOf [R, Cv] (unweight sv) }
 
 /-- rows: ids 5, 9; one subtotal (5 + 9) anchored after 5, one difference at the bottom;
     element 9 has weight 0 only (weighted-empty, unweighted non-empty); sorted by the first
@@ -831,7 +831,7 @@ example (r cl : RDim) (hr : rowsT.resolve = some r) (hc : colsT.resolve = some c
 /-- a strand: MR with two items, sorted by unweighted base, one hidden -/
 def mrV : Var := ⟨.arr, 2, [false, false, true], true⟩
 def strandS : Survey := [⟨1, [[0, 2]]⟩, ⟨2, [[1, 0]]⟩]
-def strandC : StrandData := ⟨[mrV], cubeOf [mrV] strandS, cubeOf [mrV] (unweight strandS)⟩
+def strandC : StrandData := { vars := [mrV], wraw := cubeOf [mrV] strandS, uraw := cubeOf [mrV] (unweight strandS) }
 def strandD : TDim :=
   { kind := .mr, elems := [⟨.str "a", false, .none⟩, ⟨.str "b", false, .none⟩], labels := ["A", "B"]
     hide := [false, false], prune := true, order := .univariate (some .basesU) { desc := true } }
